@@ -397,6 +397,82 @@ func VerifC08NoOp() {
 	}
 }
 
+// VerifC08Reuse: one FileRestorer value restores two files one after the other (Restorer.FileRestorer()
+// is the documented way to set per-file options). The first file has an aliased / blank / dot import
+// (forked, alias symbolic); the second file imports the same path its own way and uses it. What the
+// first file needed must not leak into the second: its import block stays deeply equal, and the
+// user-facing Alias map is not written by RestoreFile.
+func VerifC08Reuse() {
+	names := vfNames()
+	s1, d1 := vfImportSpec("first", false)
+	vfAssume(d1.kind != 0)
+	var ids1 []*dst.Ident
+	if d1.kind == 1 {
+		ids1 = append(ids1, &dst.Ident{Name: "N", Path: d1.path})
+	}
+	f1 := vfFileWith([]dst.Spec{s1}, ids1)
+	// second file: the same path imported plainly and used, or not imported at all (and not used)
+	var f2 *dst.File
+	if vfChoice("secondImports", 2) == 1 {
+		s2 := &dst.ImportSpec{Path: &dst.BasicLit{Kind: token.STRING, Value: strconv.Quote(d1.path)}}
+		f2 = vfFileWith([]dst.Spec{s2}, []*dst.Ident{{Name: "M", Path: d1.path}})
+	} else {
+		other := vfPool[0]
+		if other == d1.path {
+			other = vfPool[1]
+		}
+		s2 := &dst.ImportSpec{Path: &dst.BasicLit{Kind: token.STRING, Value: strconv.Quote(other)}}
+		f2 = vfFileWith([]dst.Spec{s2}, []*dst.Ident{{Name: "M", Path: other}})
+	}
+	before2 := dst.Clone(f2).(*dst.File)
+	calls := 0
+	fr := NewRestorerWithImports(vfLocal, vfResolver{names: names, failAt: -1, calls: &calls}).FileRestorer()
+	_, err1 := fr.RestoreFile(f1)
+	vfAssert(err1 == nil, "first-restore-ok")
+	vfAssert(len(fr.Alias) == 0, "alias-option-not-written-by-restore")
+	_, err2 := fr.RestoreFile(f2)
+	vfAssert(err2 == nil, "second-restore-ok")
+	vfReach("restored-both")
+	vfAssert(len(f2.Decls) == len(before2.Decls), "second-file-decls-unchanged")
+	vfAssert(vfDeepEqual(f2.Decls[0], before2.Decls[0]), "second-file-import-block-unchanged")
+	vfAssert(len(fr.Alias) == 0, "alias-option-not-written-by-restore")
+}
+
+// VerifC08ExternalTest: the decorated package is the external test package of the package it imports
+// (Decorator path "x.y/a_test" importing "x.y/a", as every foo_test package does): qualified identifiers
+// still get the imported path, and an unedited restore keeps the import declaration as it was.
+func VerifC08ExternalTest() {
+	n := 1 + vfChoice("nsel", 2)
+	af, fset := vfSelectorFile(n)
+	calls := 0
+	local := "x.y/a_test"
+	if vfChoice("plainLocal", 2) == 1 {
+		local = vfLocal
+	}
+	d := NewDecoratorWithImports(fset, local, vfIdentResolver{failAt: -1, calls: &calls})
+	file, err := d.DecorateFile(af)
+	vfAssert(err == nil, "decorate-ok")
+	if err != nil {
+		return
+	}
+	found := 0
+	dst.Inspect(file, func(x dst.Node) bool {
+		if id, ok := x.(*dst.Ident); ok && len(id.Name) == 2 && id.Name[0] == 'N' {
+			found++
+			vfAssert(id.Path == "x.y/a", "qualified-identifier-carries-the-imported-path")
+		}
+		return true
+	})
+	vfAssert(found == n, "every-qualified-identifier-collapsed")
+	before := dst.Clone(file).(*dst.File)
+	rcalls := 0
+	res := NewRestorerWithImports(local, vfResolver{names: map[string]string{"x.y/a": "a"}, failAt: -1, calls: &rcalls})
+	_, rerr := res.RestoreFile(file)
+	vfAssert(rerr == nil, "restore-ok")
+	vfAssert(len(file.Decls) == len(before.Decls), "decls-unchanged")
+	vfAssert(vfDeepEqual(file.Decls[0], before.Decls[0]), "import-block-unchanged")
+}
+
 // ---- C17: resolver failure during restore ---------------------------------------------------------
 
 // The package-name resolver fails at its k-th call (k symbolic over all call positions): RestoreFile
@@ -588,7 +664,8 @@ func VerifC16Order() {
 	file := vfFileWith(specs, idents)
 	twin := dst.Clone(file).(*dst.File)
 	alias := map[string]string{}
-	if vfTier() > 0 && n == 2 && vfChoice("override", 2) == 1 {
+	// both used packages explicitly aliased (nothing left to resolve), aliases symbolic so that they may collide
+	if (vfTier() > 0 || len(specs) == 0) && n == 2 && vfChoice("override", 2) == 1 {
 		alias[vfPool[0]] = vfBytes("overrideAlias", 1, "pq")
 		alias[vfPool[1]] = vfBytes("overrideAlias2", 1, "pq")
 	}
@@ -626,15 +703,21 @@ func VerifC16Order() {
 func VerifC16SharedMaps() {
 	shared := map[string]string{"a": "a", "x.y/b": "b", "c/d": "d"}
 	var res resolver.RestorerResolver
-	if vfChoice("kind", 2) == 0 {
+	p1, p2 := "a", "x.y/b"
+	switch vfChoice("kind", 3) {
+	case 0:
 		res = guess.WithMap(shared)
-	} else {
+	case 1:
 		res = simple.New(shared)
+	default:
+		// paths the map does not know: the guessing resolver derives the names from the paths
+		res = guess.WithMap(shared)
+		p1, p2 = "m/x", "n.o/y"
 	}
 	mk := func(p string) *dst.File {
 		return vfFileWith(nil, []*dst.Ident{{Name: "N", Path: p}})
 	}
-	f1, f2 := mk("a"), mk("x.y/b")
+	f1, f2 := mk(p1), mk(p2)
 	g1, g2 := dst.Clone(f1).(*dst.File), dst.Clone(f2).(*dst.File)
 	var a1, a2 *ast.File
 	var e1, e2 error
@@ -649,6 +732,7 @@ func VerifC16SharedMaps() {
 	b2, be2 := NewRestorerWithImports(vfLocal, res).RestoreFile(g2)
 	vfAssert(e1 == nil && e2 == nil && be1 == nil && be2 == nil, "no-error")
 	vfAssert(vfDeepEqual(a1, b1) && vfDeepEqual(a2, b2), "result-equals-call-made-alone")
+	vfAssert(len(shared) == 3, "shared-map-not-written")
 }
 
 
